@@ -159,6 +159,10 @@ def calendar_grid(rng, tier):
                         out.append((P("tz"), bytes([1]) + _vi(len(nb)) + nb))
                     if end % 16 == 0:
                         out.append((P("bigdec"), _vi(len(nb)) + nb))
+    # Duration: seconds at both ends of u64 with nanoseconds on both sides of every carry
+    for secs in (0, 1, (1 << 63), (1 << 64) - 2, (1 << 64) - 1):
+        for nanos in (0, 999_999_999, 1_000_000_000, 1_000_000_001, 1_999_999_999, 2_000_000_000, 4_000_000_000, (1 << 32) - 1):
+            out.append((P("dur"), secs.to_bytes(8, "big") + nanos.to_bytes(4, "big")))
     for b in range(256):
         out.append((P("weekday"), bytes([b])))
         out.append((P("month"), bytes([b])))
